@@ -21,8 +21,24 @@ RULE = ("component ops: one call of HaarConv / FindLocalPeaks / FDRThres / Unify
         "floats (1e-9), plateau-rich small-integer signals, noise-free steps and constants, lengths 0..260, step "
         "half-sizes 1..64 incl. larger than the signal, malformed peak lists; oracle ops: one seeded noisy profile per "
         "case (1..3 chromosomes, step of 0/-1, 0/+0.585, 0/+1 (haar only) in either order, 100..400 bins a side, flat "
-        "controls 100..600 bins, sd 0.01..0.1, weights 0.5..1, random bin sizes and spacing) through do_segmentation "
-        "with 'haar' and 'hmm-germline' -- SEARCH, NOT PROOF: a failing profile is a real counterexample (VIOLATION with the "
+        "controls 100..600 bins, sd 0.01..0.1 with both ends of the range forced in every tenth profile, weights 0.5..1, "
+        "random bin sizes and spacing) through do_segmentation with 'haar' and 'hmm-germline'. Per sample: all "
+        "chromosomes stepped (58 %), all flat (20 %) or both sorts mixed (22 %); flat chromosomes at 0 or (one in four) "
+        "at -1 / +0.585 / +1; 15 % of the stepped chromosomes also carry a centromere-sized gap >= 100 bins from the step "
+        "(the clauses are then evaluated per arm: the step's arm and a flat arm; by_arm must split at the generated gap), "
+        "15 % of the flat ones a gap; chromosome names chrN / N / sex-only / autosome+sex / alt contigs / upper case, in "
+        "random (unsorted) order. API cases: the table as built, as a filtered subset of a larger table (index labels "
+        "not 0..n-1), without depth column, with extra columns in another column order, or after a run of the other "
+        "method on the same object; one keyword in about half of the cases (processes 2|3, skip_low, skip_outliers 10|0, "
+        "min_weight 0.3|0.5, threshold 1e-4 for haar, diploid_parx_genome). One profile in six (17 % of the oracle cases) "
+        "goes through `cnvkit.py segment CNR -m METHOD` (file written with 6-digit log2, read back exactly): "
+        "--drop-low-coverage on/off, --drop-outliers absent|10|0, -p absent|1|2|3|bare, -t absent|1e-4 (haar) or the "
+        "default smoothing window spelled out (hmm-germline), --diploid-parx-genome, -o given or left to <sample>.cns, "
+        "-d with hmm-germline only (finding C11-cli-dataframe-haar), short and long flags; the table handed to the "
+        "writer is judged, the written .cns must read back equal to it and the same call through the API must give the "
+        "same segments. Besides the Lean clauses the cumulative `probes` of the first segment must be within 5 of the "
+        "step. Not generated: integer-typed / all-1 weight column (finding C11-cli-integer-weight-column). "
+        "SEARCH, NOT PROOF: a failing profile is a real counterexample (VIOLATION with the "
         "profile as replay), a passing run proves nothing about unseen profiles. non-trivial = the op's output is non-empty / has a breakpoint; distinct by hash")
 EXHAUSTIVE = {"quick": False, "thorough": False}
 ASSUMPTIONS = [
@@ -301,44 +317,170 @@ def gen_haarseg(rng, k):
     return out
 
 
+def _r6(v):
+    """a value the 6-significant-digit table files carry exactly"""
+    return float("%.6g" % v)
+
+
+def _chrom(rng, flat, hardest=False, name="chr1", flat_level=0.0, arm_gap=False, quiet=False):
+    """one chromosome of a profile.  flat: `flat_level` throughout (b = None), optionally with one centromere-sized
+    gap; otherwise one step at bin b, optionally (arm_gap) with a centromere-sized gap at bin `gap` >= 100 bins away
+    from the step and inside the margins of GenomicArray.by_arm, so that the step's arm keeps >= 100 bins a side.
+    hardest / quiet: the two ends of the noise range (sd 0.1 with the shortest sides and smallest step; sd 0.01)"""
+    if flat:
+        n = rng.randint(100, 600) if not hardest else rng.choice([100, 600])
+        b, lo, hi = None, flat_level, flat_level
+    else:
+        nl, nr = rng.randint(100, 400), rng.randint(100, 400)
+        if hardest:   # boundary of the quantifier: shortest sides, smallest step
+            nl, nr = rng.choice([(100, 100), (100, 400), (400, 100)])
+        n, b = nl + nr, nl
+        step = rng.choice([-1.0, 0.585, 1.0]) if not hardest else 0.585
+        lo, hi = (0.0, step) if rng.random() < 0.5 else (step, 0.0)
+    sd = rng.uniform(0.01, 0.1) if not hardest else 0.1
+    if quiet:
+        sd = 0.01
+    pos = rng.randint(0, 100000)
+    gap_at = rng.randint(60, n - 60) if (flat and rng.random() < 0.15 and n > 130) else -1
+    gap = None
+    margin = max(50, int(round(0.1 * n)))   # by_arm looks for the centromere at bins margin+1 .. n-margin-1
+    if flat and margin + 1 <= gap_at < n - margin:
+        gap = gap_at
+    if arm_gap and not flat:
+        cand = [g for g in range(margin + 1, n - margin) if abs(g - b) >= 100]
+        if cand:
+            gap = gap_at = rng.choice(cand)
+    bins = []
+    for i in range(n):
+        pos += rng.randint(0, 5000)
+        if i == gap_at:
+            pos += rng.randint(150000, 3000000)
+        sz = rng.randint(50, 1000)
+        v = (lo if (b is None or i < b) else hi) + rng.gauss(0, sd)
+        bins.append([pos, sz, round(v, 6), round(rng.uniform(0.5, 1.0), 4)])
+        pos += sz
+    c = {"name": name, "b": b, "lo": lo, "hi": hi, "sd": round(sd, 4), "bins": bins}
+    if gap is not None:
+        c["gap"] = gap
+    return c
+
+
 def _profile(rng, force_flat=None, hardest=False):
     nchr = rng.randint(1, 3)
-    chroms = []
     flat = rng.random() < 0.25 if force_flat is None else force_flat
-    for c in range(nchr):
-        if flat:
-            n = rng.randint(100, 600) if not hardest else rng.choice([100, 600])
-            b, lo, hi = None, 0.0, 0.0
+    return [_chrom(rng, flat, hardest, "chr%d" % (c + 1)) for c in range(nchr)]
+
+
+# chromosome naming schemes; the names are drawn without replacement IN RANDOM ORDER, so tables also come with
+# their chromosomes unsorted.  hmm_get_model trains on `autosomes()` only: schemes without any autosome (the
+# fallback "no integer names: take everything") and with the step on a sex chromosome next to a flat autosome matter
+NAME_SCHEMES = [
+    (30, ["chr1", "chr2", "chr3"]),
+    (10, ["1", "2", "3"]),
+    (8, ["chr10", "chr21", "chr22", "chr9"]),
+    (10, ["chrX", "chrY", "chrM"]),
+    (6, ["X", "Y", "MT"]),
+    (14, ["chr1", "chrX", "chrY", "chr7"]),
+    (6, ["1", "X", "22"]),
+    (6, ["chr1_gl000191_random", "chrUn_gl000211", "HLA-A", "chr4"]),
+    (5, ["CHR1", "Chr2", "chr03"]),
+    (5, ["chr11", "chr2", "chr1"]),
+]
+
+
+def _names(rng, n, in_order=False):
+    r = rng.random() * sum(w for w, _ in NAME_SCHEMES)
+    for w, pool in NAME_SCHEMES:
+        r -= w
+        if r < 0:
+            break
+    if in_order:
+        return pool[:n]
+    return rng.sample(pool, n)
+
+
+def _oracle_profile(rng, hardest=False, quiet=False):
+    """(kind, chroms): all chromosomes with a step ('step'), all flat ('flat'), or both sorts in one sample
+    ('mixed'); flat chromosomes sit at 0 or (one in four) at another level the property names"""
+    r = rng.random()
+    kind = "flat" if r < 0.2 else ("mixed" if r < 0.42 else "step")
+    nchr = rng.randint(2, 3) if kind == "mixed" else rng.randint(1, 3)
+    if kind == "mixed":
+        flats = [True, False] + [rng.random() < 0.5 for _ in range(nchr - 2)]
+        rng.shuffle(flats)
+    else:
+        flats = [kind == "flat"] * nchr
+    names = _names(rng, nchr, in_order=rng.random() < 0.4)
+    chroms = []
+    for f, name in zip(flats, names):
+        lvl = rng.choice([-1.0, 0.585, 1.0]) if (f and rng.random() < 0.25) else 0.0
+        chroms.append(_chrom(rng, f, hardest, name, flat_level=lvl, arm_gap=rng.random() < 0.15, quiet=quiet))
+    return kind, chroms
+
+
+def _oracle_variant(rng, method, cli):
+    """how the profile reaches the code.  API: representation of the table (`rep`) and keyword arguments that are
+    given explicitly with a value that drops no bin of a property-sized profile (`opts`); CLI: the flags.
+    rep 'w1': a `weight` column of integer dtype, all 1 (a .cnr whose weights are all `1` is read back as int64; finding
+    AT, fixed).  A table without `weight` column is outside the quantifier (do_segmentation needs the column)"""
+    if cli:
+        o = {"short": rng.random() < 0.5}
+        if rng.random() < 0.5:
+            o["drop_low"] = True
+        o["outliers"] = rng.choice([None, None, 10, 0])       # None: left to the parser's default (10); 0: filter off
+        o["processes"] = rng.choice([None, None, 1, 2, 3, 0])  # None: parser's default (1); 0: bare -p = all CPUs
+        if method == "haar":
+            o["threshold"] = rng.choice([None, None, 0.0001])   # the default q, given explicitly
         else:
-            nl, nr = rng.randint(100, 400), rng.randint(100, 400)
-            if hardest:   # boundary of the quantifier: shortest sides, smallest step
-                nl, nr = rng.choice([(100, 100), (100, 400), (400, 100)])
-            n, b = nl + nr, nl
-            step = rng.choice([-1.0, 0.585, 1.0]) if not hardest else 0.585
-            lo, hi = (0.0, step) if rng.random() < 0.5 else (step, 0.0)
-        sd = rng.uniform(0.01, 0.1) if not hardest else 0.1
-        pos = rng.randint(0, 100000)
-        gap_at = rng.randint(60, n - 60) if (flat and rng.random() < 0.15 and n > 130) else -1
-        bins = []
-        for i in range(n):
-            pos += rng.randint(0, 5000)
-            if i == gap_at:
-                pos += rng.randint(150000, 3000000)
-            sz = rng.randint(50, 1000)
-            v = (lo if (b is None or i < b) else hi) + rng.gauss(0, sd)
-            bins.append([pos, sz, round(v, 6), round(rng.uniform(0.5, 1.0), 4)])
-            pos += sz
-        chroms.append({"name": "chr%d" % (c + 1), "b": b, "lo": lo, "hi": hi, "sd": round(sd, 4), "bins": bins})
-    return chroms
+            o["threshold"] = rng.choice([None, None, "window"])  # the default smoothing window, given explicitly
+        if rng.random() < 0.15:
+            o["no_output"] = True    # no -o: <sample_id>.cns in the working directory
+        if rng.random() < 0.15:
+            o["parx"] = rng.choice(["grch38", "grch37"])   # PAR bins of X (if any) join the HMM's training set
+        # -d: the (empty, no R here) raw dataframe goes to a second file.  hmm-germline only: with haar and two or more
+        # chromosome arms `segment -d` raises ValueError on /repo (proposed_fixes/C11-cli-dataframe-haar.md); once that
+        # is repaired the restriction to hmm-germline should go
+        if method != "haar" and rng.random() < 0.2:
+            o["dataframe"] = True
+        return None, o
+    rep = rng.choice([None, None, None, "sub", "sub", "nodepth", "extra", "reuse", "w1"])
+    o = {}
+    r = rng.random()
+    if r < 0.10:
+        o["processes"] = rng.choice([2, 3])
+    elif r < 0.20:
+        o["skip_low"] = True
+    elif r < 0.30:
+        o["skip_outliers"] = rng.choice([10, 0])
+    elif r < 0.38:
+        o["min_weight"] = rng.choice([0.3, 0.5])
+    elif r < 0.46 and method == "haar":
+        o["threshold"] = 0.0001
+    elif r < 0.56:
+        o["diploid_parx_genome"] = rng.choice(["grch38", "grch37"])   # PAR bins of X (if any) join the HMM's training set
+    return rep, o
 
 
 def gen_oracle(rng, k):
+    """every profile runs through both methods; about one profile in six goes through `cnvkit.py segment`"""
     out = []
     for j in range(k):
-        chroms = _profile(rng, hardest=(j % 10 == 0))
+        kind, chroms = _oracle_profile(rng, hardest=(j % 10 == 0), quiet=(j % 10 == 5))
+        cli = j % 6 == 0
+        if cli:
+            for c in chroms:
+                for b in c["bins"]:
+                    b[2] = _r6(b[2])
         for method in ("haar", "hmm-germline"):
-            kind = "flat" if chroms[0]["b"] is None else "step"
-            out.append({"op": "oracle", "tag": f"oracle-{method}-{kind}", "in": {"method": method, "chroms": chroms}})
+            rep, opts = _oracle_variant(rng, method, cli)
+            i = {"method": method, "chroms": chroms}
+            if rep:
+                i["rep"] = rep
+            if opts:
+                i["opts"] = opts
+            if cli:
+                i["cli"] = True
+            out.append({"op": "oracle", "tag": ("cli-" if cli else "") + f"oracle-{method}-{kind}", "in": i})
     return out
 
 
@@ -390,6 +532,20 @@ def corpus():
         chroms = _profile(r, force_flat=False, hardest=True)
         for method in ("haar", "hmm-germline"):
             out.append({"op": "oracle", "tag": f"corpus-oracle-hardest-{method}", "in": {"method": method, "chroms": chroms}})
+    # the same boundary through `cnvkit.py segment` with every flag spelled out, on a sample without autosomes whose
+    # step chromosome has a centromere gap and whose flat chromosome sits at -1; and as a filtered-subset table
+    r = random.Random(12)
+    chroms = [_chrom(r, False, True, "chrX", arm_gap=True), _chrom(r, True, True, "chrY", flat_level=-1.0)]
+    for c in chroms:
+        for b in c["bins"]:
+            b[2] = _r6(b[2])
+    for method in ("haar", "hmm-germline"):
+        opts = {"short": method == "haar", "drop_low": True, "outliers": 10, "processes": 2, "parx": "grch38",
+                "threshold": 0.0001 if method == "haar" else "window"}
+        if method != "haar":   # see _oracle_variant
+            opts["dataframe"] = True
+        out.append({"op": "oracle", "tag": f"cli-corpus-oracle-{method}", "in": {"method": method, "chroms": chroms, "cli": True, "opts": opts}})
+        out.append({"op": "oracle", "tag": f"corpus-oracle-sub-{method}", "in": {"method": method, "chroms": chroms, "rep": "sub"}})
     return out
 
 
@@ -401,14 +557,179 @@ def _fl(xs):
     return [frac(float(x)) if math.isfinite(float(x)) else NAN for x in xs]
 
 
-def _cna(chroms):
+def _cna(chroms, rep=None):
+    """the profile as a CopyNumArray.  rep: 'sub' = the same table as a filtered subset of a larger one (junk rows
+    interleaved and masked out: the pandas index labels are no longer 0..n-1), 'nodepth' = no depth column,
+    'extra' = further columns in another column order"""
+    import random
+    import numpy as np
     from cnvlib.cnary import CopyNumArray as CNA
     rows = []
     for c in chroms:
         for pos, sz, v, w in c["bins"]:
             rows.append((c["name"], pos, pos + sz, "G", v, w, 10.0))
-    return CNA.from_rows(rows, columns=["chromosome", "start", "end", "gene", "log2", "weight", "depth"],
-                         meta_dict={"sample_id": "S"})
+    cols = ["chromosome", "start", "end", "gene", "log2", "weight", "depth"]
+    meta = {"sample_id": "S"}
+    if rep == "sub":
+        r = random.Random(len(rows))
+        big, mask = [(rows[0][0], rows[0][1], rows[0][2], "junk", 3.0, 0.7, 1.0)], [False]
+        for row in rows:
+            big.append(row)
+            mask.append(True)
+            for _ in range(r.choice([0, 0, 1, 2])):
+                big.append((row[0], row[1], row[2], "junk", r.choice([3.0, -3.0]), 0.7, 1.0))
+                mask.append(False)
+        return CNA.from_rows(big, columns=cols, meta_dict=meta)[np.array(mask)]
+    if rep == "w1":
+        # every weight 1, held in an INTEGER column: what a .cnr whose weights are all 1 looks like after a round trip
+        # through a file ("1.0" is written as "1").  Finding AT (the weighted smoother raised on it), fixed acb9790
+        arr = CNA.from_rows([row[:5] + (1,) + row[6:] for row in rows], columns=cols, meta_dict=meta)
+        arr.data["weight"] = arr.data["weight"].astype("int64")
+        return arr
+    if rep == "nodepth":
+        return CNA.from_rows([row[:6] for row in rows], columns=cols[:6], meta_dict=meta)
+    if rep == "extra":
+        return CNA.from_rows([(row[0], row[1], row[2], 0.45, row[3], row[6], row[5], row[4], 0.1) for row in rows],
+                             columns=["chromosome", "start", "end", "gc", "gene", "depth", "weight", "log2", "spread"],
+                             meta_dict=meta)
+    return CNA.from_rows(rows, columns=cols, meta_dict=meta)
+
+
+def _oracle_cli(i):
+    """the profile through `cnvkit.py segment`: write the .cnr (column order of `fix`), parse the command line, run
+    the command, take the table it hands to the writer and check that the written .cns reads back equal to it.
+    Returns (bins as read, segments).  The log2 values of a CLI case carry 6 significant digits, so the file is exact."""
+    import logging
+    import os
+    import shutil
+    import tempfile
+    import numpy as np
+    from cnvlib import commands, smoothing
+    from cnvlib.cmdutil import read_cna
+    from cnvlib.cnary import CopyNumArray as CNA
+    from skgenome import tabio
+    o = i.get("opts") or {}
+    d = tempfile.mkdtemp(dir="/var/tmp", prefix="c11cli")
+    try:
+        fin, fout = os.path.join(d, "S.cnr"), os.path.join(d, "out", "S.cns")
+        os.mkdir(os.path.join(d, "out"))
+        os.mkdir(os.path.join(d, "cwd"))
+        rows = []
+        for c in i["chroms"]:
+            for pos, sz, v, w in c["bins"]:
+                rows.append((c["name"], pos, pos + sz, "G", 10.0, v, w))
+        tabio.write(CNA.from_rows(rows, columns=["chromosome", "start", "end", "gene", "depth", "log2", "weight"],
+                                  meta_dict={"sample_id": "S"}), fin)
+        cna = read_cna(fin)
+        for c in i["chroms"]:
+            sub = cna.data[cna.data["chromosome"] == c["name"]]
+            got = [[int(s), int(e) - int(s), float(v), float(w)] for s, e, v, w in zip(sub["start"], sub["end"], sub["log2"], sub["weight"])]
+            if got != [list(b) for b in c["bins"]]:
+                raise AssertionError("harness: the written .cnr does not read back as the generated bins")
+        short = o.get("short")
+        argv = ["segment", fin, "-m" if short else "--method", i["method"]]
+        if not o.get("no_output"):
+            argv += ["-o" if short else "--output", fout]
+        if o.get("drop_low"):
+            argv.append("--drop-low-coverage")
+        if o.get("outliers") is not None:
+            argv += ["--drop-outliers", "%g" % o["outliers"]]
+        if o.get("parx"):
+            argv += ["--diploid-parx-genome", o["parx"]]
+        fdf = os.path.join(d, "out", "S.dataframe.txt")
+        if o.get("dataframe"):
+            argv += ["-d" if short else "--dataframe", fdf]
+        thr = o.get("threshold")
+        if thr == "window":   # what smooth_log2 would choose by itself, spelled out
+            thr = smoothing.guess_window_size(cna.log2, weights=cna["weight"])
+        if thr is not None:
+            argv += ["-t" if short else "--threshold", repr(thr)]
+        if o.get("processes") == 0:     # bare -p goes last: it must not swallow the file name
+            argv.append("-p" if short else "--processes")
+        elif o.get("processes") is not None:
+            argv += ["-p" if short else "--processes", str(o["processes"])]
+        captured = []
+
+        class _Tab:
+            def __getattr__(self, name):
+                return getattr(tabio, name)
+
+            def write(self, garr, outfname=None, *a, **k):
+                captured.append((garr, outfname))
+                return tabio.write(garr, outfname, *a, **k)
+        saved = commands.tabio
+        commands.tabio = _Tab()
+        quiet = logging.root.manager.disable  # the harness workers already run with logging disabled: restore, not reset
+        logging.disable(logging.CRITICAL)
+        cwd = os.getcwd()
+        os.chdir(os.path.join(d, "cwd"))  # a default output name must not land in the harness directory
+        try:
+            np.random.seed(20240911)
+            args = commands.parse_args(argv)
+            args.func(args)
+        finally:
+            os.chdir(cwd)
+            logging.disable(quiet)
+            commands.tabio = saved
+        want = "S.cns" if o.get("no_output") else fout
+        if o.get("no_output"):
+            fout = os.path.join(d, "cwd", "S.cns")
+        nfiles = len(os.listdir(os.path.join(d, "cwd"))) + len(os.listdir(os.path.join(d, "out")))
+        if (len(captured) != 1 or captured[0][1] != want or not os.path.exists(fout)
+                or nfiles != (2 if o.get("dataframe") else 1) or os.path.exists(fdf) != bool(o.get("dataframe"))):
+            raise AssertionError("cnvkit.py segment did not write exactly one table, to the requested output")
+        seg = captured[0][0]
+        back = read_cna(fout)
+        cols = ("chromosome", "start", "end", "gene", "log2", "probes", "weight", "depth")
+        if len(back) != len(seg) or any(c not in back for c in cols):
+            raise AssertionError("the written .cns does not read back as the table segment computed (shape)")
+        order = {name: k for k, name in enumerate(back.chromosome.unique())}
+        sd = seg.data.assign(_o=seg.data["chromosome"].map(order)).sort_values(["_o", "start"], kind="stable")
+        for c in cols:
+            for a, b in zip(back[c], sd[c]):
+                if c in ("chromosome", "gene"):
+                    ok = str(a) == str(b)
+                elif c in ("start", "end", "probes"):
+                    ok = int(a) == int(b)
+                else:
+                    ok = abs(float(a) - float(b)) <= 1e-5 * max(1e-300, abs(float(b)))
+                if not ok:
+                    raise AssertionError(f"the written .cns does not read back as the table segment computed ({c}: {a!r} vs {b!r})")
+        return cna, seg
+    finally:
+        shutil.rmtree(d, ignore_errors=True)
+
+
+def _oracle_api(i, cna):
+    import numpy as np
+    from cnvlib import segmentation
+    o = i.get("opts") or {}
+    kw = {k: o[k] for k in ("processes", "skip_low", "skip_outliers", "min_weight", "threshold", "diploid_parx_genome") if k in o}
+    if i.get("cli"):     # the API call a CLI case is compared with
+        kw = {"skip_low": bool(o.get("drop_low"))}
+        if o.get("processes") is not None:
+            kw["processes"] = o["processes"]
+        if o.get("outliers") is not None:
+            kw["skip_outliers"] = o["outliers"]
+        if o.get("threshold") == 0.0001:
+            kw["threshold"] = 0.0001
+        if o.get("parx"):
+            kw["diploid_parx_genome"] = o["parx"]
+    if i.get("rep") == "reuse":   # the object has been through the other method before
+        np.random.seed(20240911)
+        segmentation.do_segmentation(cna, "hmm-germline" if i["method"] == "haar" else "haar")
+    np.random.seed(20240911)
+    return segmentation.do_segmentation(cna, i["method"], **kw)
+
+
+def _oracle_segs(seg, chroms):
+    d = seg.data
+    out = []
+    for c in chroms:
+        s = d[d["chromosome"] == c["name"]]
+        out.append([[int(s["start"].iat[k]), int(s["end"].iat[k]), frac(float(s["log2"].iat[k])),
+                     int(s["probes"].iat[k])] for k in range(len(s))])
+    return out
 
 
 def _haarseg_inputs(I, q, W):
@@ -469,20 +790,26 @@ def run_impl(case):
                           "size": [int(v) for v in res["size"]], "mean": _fl(res["mean"])},
                 "norms": norms, "convs": convs, "ps": ps}
     if op == "oracle":
-        from cnvlib import segmentation
-        cna = _cna(i["chroms"])
+        res = {}
+        if i.get("cli"):
+            cna, seg = _oracle_cli(i)
+            segs = _oracle_segs(seg, i["chroms"])
+            # the same profile through the API: flags whose value equals the default must change nothing
+            api = _oracle_segs(_oracle_api(i, _cna(i["chroms"])), i["chroms"])
+            same = len(api) == len(segs) and all(
+                len(a) == len(b) and all(x[:2] == y[:2] and x[3] == y[3] and _same(x[2], y[2], False) for x, y in zip(a, b))
+                for a, b in zip(segs, api))
+            res["cli_same"] = True if same else "command line %s vs API %s" % (str(segs)[:200], str(api)[:200])
+        else:
+            cna = _cna(i["chroms"], i.get("rep"))
+            seg = _oracle_api(i, cna)
+            segs = _oracle_segs(seg, i["chroms"])
         arms = {}
         for c, sub in cna.by_arm():
-            arms[c] = arms.get(c, 0) + 1
-        np.random.seed(20240911)
-        seg = segmentation.do_segmentation(cna, i["method"])
-        d = seg.data
-        out = []
-        for c in i["chroms"]:
-            s = d[d["chromosome"] == c["name"]]
-            out.append([[int(s["start"].iat[k]), int(s["end"].iat[k]), frac(float(s["log2"].iat[k])),
-                         int(s["probes"].iat[k])] for k in range(len(s))])
-        return {"segs": out, "arms": [arms.get(c["name"], 0) for c in i["chroms"]]}
+            arms.setdefault(c, []).append(len(sub))
+        res.update({"segs": segs, "arms": [len(arms.get(c["name"], [])) for c in i["chroms"]],
+                    "arm_bins": [arms.get(c["name"], []) for c in i["chroms"]]})
+        return res
     if op == "consts":
         return _observe_consts()
     raise ValueError(op)
@@ -530,6 +857,38 @@ def _q(xs):
     return [frac(x) for x in xs]
 
 
+def _oracle_units(i, impl):
+    """the units the property's clauses are evaluated on: one per chromosome, except that a chromosome with a step
+    AND a centromere-sized gap (which by_arm really splits in two, at the generated bin) gives one unit per arm --
+    the arm with the step (>= 100 bins a side within the arm) and a flat arm; the reported segments go to the arm
+    they start in.  Each unit: name, starts, b, lo, hi, arms, [unclaimed], segs"""
+    units = []
+    for k, c in enumerate(i["chroms"]):
+        starts = [b[0] for b in c["bins"]]
+        segs = [] if impl is None else impl["segs"][k]
+        arms = 1 if impl is None else impl["arms"][k]
+        unclaimed = i["method"] != "haar" and 1.0 in (c["lo"], c["hi"])   # 0/+1 is claimed for haar only
+        g = c.get("gap")
+        first = len(units)
+        if c["b"] is not None and g is not None and impl is not None and impl["arm_bins"][k] == [g, len(starts) - g]:
+            left = [s for s in segs if s[0] < starts[g]]
+            right = [s for s in segs if s[0] >= starts[g]]
+            if c["b"] < g:
+                parts = [(starts[:g], c["b"], c["lo"], c["hi"], left), (starts[g:], None, c["hi"], c["hi"], right)]
+            else:
+                parts = [(starts[:g], None, c["lo"], c["lo"], left), (starts[g:], c["b"] - g, c["lo"], c["hi"], right)]
+            for arm, (st, b, lo, hi, sg) in enumerate(parts):
+                units.append({"name": "%s:arm%d" % (c["name"], arm), "starts": st, "b": b, "lo": frac(lo), "hi": frac(hi),
+                              "arms": 1, "segs": sg})
+        else:
+            units.append({"name": c["name"], "starts": starts, "b": c["b"], "lo": frac(c["lo"]), "hi": frac(c["hi"]),
+                          "arms": arms, "segs": segs})
+        if unclaimed:
+            for u in units[first:]:
+                u["unclaimed"] = True
+    return units
+
+
 def to_line(case, impl):
     op, i = case["op"], case["in"]
     err = isinstance(impl, dict) and "__error__" in impl
@@ -572,14 +931,9 @@ def to_line(case, impl):
             inp["flat"] = True
         return {"op": op, "in": inp, "impl": impl["table"]}
     if op == "oracle":
-        chroms = []
-        for k, c in enumerate(i["chroms"]):
-            d = {"name": c["name"], "starts": [b[0] for b in c["bins"]], "b": c["b"], "lo": frac(c["lo"]), "hi": frac(c["hi"]),
-                 "arms": 1 if err else impl["arms"][k]}
-            if i["method"] != "haar" and 1.0 in (c["lo"], c["hi"]):
-                d["unclaimed"] = True   # 0/+1 is claimed for haar only
-            chroms.append(d)
-        return {"op": op, "in": {"method": i["method"], "chroms": chroms}, "impl": None if err else impl["segs"]}
+        units = _oracle_units(i, None if err else impl)
+        return {"op": op, "in": {"method": i["method"], "chroms": [{k: v for k, v in u.items() if k != "segs"} for u in units]},
+                "impl": None if err else [u["segs"] for u in units]}
     if op == "consts":
         return {"op": op, "in": {}, "impl": None if err else impl}
     raise ValueError(op)
@@ -648,6 +1002,17 @@ def judge(case, impl, resp):
             dis.append(f"haarSeg breakpoints model {out['start']} impl {t['start']}")
         elif not _same_list(t["mean"], out["mean"], False):
             dis.append("haarSeg means differ")
+    elif op == "oracle":
+        # the property's observation point: the cumulative `probes` of the reported segments against the step
+        for u in _oracle_units(i, impl):
+            if (u["b"] is not None and not u.get("unclaimed") and len(u["segs"]) == 2 and abs(u["segs"][0][3] - u["b"]) > 5
+                    and "cumulative_probes_within_5_bins" not in spec):
+                spec.append("cumulative_probes_within_5_bins")
+        if impl.get("cli_same", True) is not True:
+            dis.append("cnvkit.py segment differs from do_segmentation: " + str(impl["cli_same"]))
+        for k, c in enumerate(i["chroms"]):   # the arm cells must really be arm cells
+            if c.get("gap") is not None and impl["arm_bins"][k] != [c["gap"], len(c["bins"]) - c["gap"]]:
+                dis.append(f"by_arm gives arms of {impl['arm_bins'][k]} bins, the only centromere-sized gap is at bin {c['gap']}")
     elif op == "consts":
         if impl["levels"] != out["levels"]:
             dis.append(f"level loop observed {impl['levels']} generated {out['levels']}")
